@@ -202,14 +202,16 @@ theorem c08_sentinel_witness :
     `creationdate` string and every frame sequence — any length, any NAL types, any media types —
     whose carried frames (video; audio iff AAC) from `known` on are admissible (`FrameOk`: a
     video frame has its NAL header byte, the body fits DataSize, tag time within the signed 32-bit
-    millisecond window, |PTS−DTS| < 2^23 ms):
+    millisecond window, |PTS−DTS| < 2^23 ms) — and, for H.265, given parameter-set decoders
+    that return the general profile/tier/level found in the bytes (`hevcFaithful`, property C15):
 
     * the worker goroutine survives (`false`: no panic escaped), and
     * the bytes the client receives satisfy `Spec.checkMux`: they parse as FLV (header announcing
       video and, iff AAC, audio; every tag followed by its exact size); the tags are `onMetaData`
       (exact ECMA-array count, the right codec ids), then the AVC/HEVC decoder configuration
-      record carrying exactly the stream's SPS/PPS(/VPS) with 4-byte NAL lengths (and the SPS's
-      profile/compatibility/level bytes), then the AAC configuration with the stream's
+      record carrying exactly the stream's SPS/PPS(/VPS) with 4-byte NAL lengths (AVC: and the SPS's
+      profile/compatibility/level bytes; HEVC: and the general profile space/tier/idc,
+      compatibility and constraint flags and level that VPS and SPS both state), then the AAC configuration with the stream's
       AudioSpecificConfig iff AAC — all with timestamp 0 — then exactly one tag per carried
       frame from `known` on, in order: a video tag holds one length-prefixed NAL unit equal to
       the frame's payload, is flagged key frame iff that NAL is an IDR (H.264) / IRAP 16..21
@@ -217,14 +219,14 @@ theorem c08_sentinel_witness :
       DTS (video) / PTS (audio) in ms, never wrapped; nothing is written for the frames before
       `known`, and nothing at all when the parameter sets never become usable. -/
 theorem c08_end_to_end (vm : VideoMeta) (am : AudioMeta) (date : Bytes) (known : Nat) (frames : List Frame)
-    (hcodec : vm.codec ≠ .other)
+    (hcodec : vm.codec ≠ .other) (hfaith : hevcFaithful vm = true)
     (hs : vm.sps.length < 65536) (hp : vm.pps.length < 65536) (hv : vm.vps.length < 65536)
     (ha : am.asc.length + 2 < 16777216) (hd : date.length < 65536)
     (hall : ∀ f ∈ fromStart (srcOf vm am) known frames, carried (srcOf vm am) f = true → FrameOk f) :
     ∃ bs, muxBytes genCfg vm am date known frames = some (bs, false) ∧
       checkMux (srcOf vm am) (fromStart (srcOf vm am) known frames) bs = true := by
   rw [c08_gen_cfg]
-  exact checkMux_muxBytes fixedCfg ⟨rfl, rfl⟩ rfl vm am date known frames hcodec hs hp hv ha hd hall
+  exact checkMux_muxBytes fixedCfg ⟨rfl, rfl⟩ rfl vm am date known frames hcodec hfaith hs hp hv ha hd hall
 
 /-- non-vacuity: an H.264+AAC stream whose parameter sets arrive in band (known = 1), an audio
     frame first, an IDR with PTS > DTS, a 1-byte NAL with PTS < DTS, times below and above 2^31−1 ms
@@ -238,6 +240,25 @@ example :
     let frames : List Frame := [⟨1, 21000000, 21000000, [0x21]⟩, ⟨0, 40000000, 80000000, [0x65, 0x88]⟩,
       ⟨1, 44000000, 44000000, []⟩, ⟨0, 2147483647000000, 2147483607000000, [0x41]⟩, ⟨7, 0, 0, []⟩]
     ∀ f ∈ fromStart (srcOf vm am) 1 frames, carried (srcOf vm am) f = true → FrameOk f := by decide
+
+/-- non-vacuity for H.265: a real camera's VPS/SPS (the vectors of av/codec/hevc/*_test.go) with the
+    values ipchub's decoders return for them meet `hevcFaithful` — the general profile/tier/level
+    read at the standard's positions (after removing the emulation-prevention bytes) are Main
+    profile (idc 1), main tier, level 93, compatibility 0x60000000, constraint 0x900000000000 -/
+example :
+    let ptl : HevcPtl := { space := 0, tier := 0, idc := 1, compat := 1610612736, constraint := 158329674399744, level := 93 }
+    let vm : VideoMeta :=
+      { codec := .h265, width := 0, height := 0, frameRate := 0, dataRate := 0,
+        sps := [0x42, 0x01, 0x01, 0x01, 0x60, 0x00, 0x00, 0x03, 0x00, 0x90, 0x00, 0x00, 0x03, 0x00, 0x00, 0x03, 0x00, 0x5d,
+                0xa0, 0x02, 0x80, 0x80, 0x2d, 0x16, 0x59, 0x59, 0xa4, 0x93, 0x2b, 0x80, 0x40, 0x00, 0x00, 0xfa, 0x40, 0x00,
+                0x17, 0x70, 0x02],
+        pps := [0x44, 0x01, 0xc1, 0x72, 0xb4, 0x62, 0x40],
+        vps := [0x40, 0x01, 0x0c, 0x01, 0xff, 0xff, 0x01, 0x60, 0x00, 0x00, 0x03, 0x00, 0x90, 0x00, 0x00, 0x03, 0x00, 0x00,
+                0x03, 0x00, 0x5d, 0x95, 0x98, 0x09],
+        hevcVps := some { maxSubLayersMinus1 := 0, ptl := ptl },
+        hevcSps := some { maxSubLayersMinus1 := 0, nesting := 1, ptl := ptl, chroma := 1, lumaM8 := 0, chromaM8 := 0 } }
+    hevcFaithful vm = true ∧ spsPtl vm.sps = some (ptlNat ptl) ∧ vpsPtl vm.vps = some (ptlNat ptl) := by
+  decide
 
 /-- **One tag per frame** (the per-frame part of the statement, on its own): a carried admissible
     frame is packetised into exactly one tag, stamped with the low 32 bits of its DTS (video) /
@@ -261,12 +282,12 @@ theorem c08_other_frames_dropped (vm : VideoMeta) (am : AudioMeta) (f : Frame)
     VPS) equal to the stream's, 4-byte NAL lengths, key-frame + sequence-header flags, CTS 0; the
     AAC sequence header carries the AudioSpecificConfig. -/
 theorem c08_config_records (vm : VideoMeta) (am : AudioMeta) (hcodec : vm.codec ≠ .other)
-    (hready : videoMetaReady vm = true)
+    (hready : videoMetaReady vm = true) (hfaith : hevcFaithful vm = true)
     (hs : vm.sps.length < 65536) (hp : vm.pps.length < 65536) (hv : vm.vps.length < 65536)
     (ha : am.asc.length + 2 < 16777216) :
     (∃ t, videoSeqHeaderTag vm = .ok t ∧ t.timestamp = 0 ∧ ∀ d, isVideoConfigTag (srcOf vm am) (viewTag t d) = true) ∧
     (∀ d, isAudioConfigTag (srcOf vm am) (viewTag (audioSeqHeaderTag am) d) = true) := by
-  obtain ⟨t, h1, _, h3, _, _, _, h7⟩ := videoConfig_ok vm am hcodec hready hs hp hv
+  obtain ⟨t, h1, _, h3, _, _, _, h7⟩ := videoConfig_ok vm am hcodec hready hfaith hs hp hv
   exact ⟨⟨t, h1, h3, h7⟩, fun d => (audioConfig_ok vm am d ha).2.2⟩
 
 /-- The HEVC record's general profile/tier/level bytes are those `init`/`applyPLT` computed from
@@ -278,8 +299,19 @@ theorem c08_hevc_record_fields (r : HevcRecord) (vps sps pps : Bytes) (hl : r.le
       h.profileSpace = (((r.space <<< 6) ||| (r.tier <<< 5) ||| r.idc) >>> 6).toNat ∧
       h.tier = ((((r.space <<< 6) ||| (r.tier <<< 5) ||| r.idc) >>> 5) &&& 1).toNat ∧
       h.profileIdc = (((r.space <<< 6) ||| (r.tier <<< 5) ||| r.idc) &&& 0x1F).toNat ∧
-      h.compat = r.compat.toNat ∧ h.level = r.level.toNat :=
+      h.compat = r.compat.toNat ∧ h.level = r.level.toNat ∧
+      (r.constraint.toNat < 281474976710656 → h.constraint = r.constraint.toNat) :=
   parseHvcc_hevcRecord r vps sps pps hl hv hs hp
+
+/-- When VPS and SPS were decoded to the same general profile/tier/level `p`, `init`/`applyPLT`
+    leave exactly `p` in the record (space, tier, profile idc, compatibility and constraint flags,
+    level). -/
+theorem c08_hevc_record_ptl (v : HevcVpsInfo) (s : HevcSpsInfo) (p : HevcPtl) (hv : v.ptl = p) (hs : s.ptl = p)
+    (hc : p.constraint.toNat < 281474976710656) :
+    (hevcInit (some v) (some s)).space = p.space ∧ (hevcInit (some v) (some s)).tier = p.tier ∧
+    (hevcInit (some v) (some s)).idc = p.idc ∧ (hevcInit (some v) (some s)).compat = p.compat ∧
+    (hevcInit (some v) (some s)).constraint = p.constraint ∧ (hevcInit (some v) (some s)).level = p.level :=
+  hevcInit_agree v s p hv hs hc
 
 /-- **Metadata**: the script tag reads back as `onMetaData` with an exact ECMA-array count and the
     right video (and, iff AAC, audio) codec id. -/
